@@ -70,6 +70,7 @@ static uint16_t rand_seed;
 static struct packet outpkt;
 static struct packet inpkt;
 int outchunkresent = 0;
+static time_t outchunktime;	/* when the current upstream fragment was last sent */
 
 /* My userid at the server */
 static char userid;
@@ -370,6 +371,8 @@ send_chunk(int fd)
 	datacmc++;
 	if (datacmc >= 36)
 		datacmc = 0;
+
+	outchunktime = time(NULL);
 
 #if 0
 	fprintf(stderr, "  Send: down %d/%d up %d/%d, %d bytes\n",
@@ -1130,6 +1133,16 @@ client_tunnel(int tun_fd, int dns_fd)
 
 		if (i < 0)
 			err(1, "select");
+
+		if (i > 0 && is_sending() && outchunktime + 1 < time(NULL)) {
+			/* Traffic on the tun device (which is only being
+			   dropped while we are re-sending) restarts the
+			   select timeout every time; it must not postpone
+			   the re-send or give-up of the current fragment
+			   forever. Whatever is readable will still be
+			   there on the next round. */
+			i = 0;
+		}
 
 		if (i == 0) {
 			/* timeout */
